@@ -372,7 +372,14 @@ def check_destroy(rep, db, f, inst, vals):
                 (c.startswith(("std::map<", "std::unordered_map<")) and c.rstrip("> ").endswith("void *") and "string" in c)
         conts = [fl["n"] for fl in rec.get("fields", []) if is_registry((fl["t"] or {}).get("c") or "")]
         if "callback_keys" not in conts:
-            rep.require(False, "anchor field callback_keys not found in rlbox_sandbox")
+            shared = [sv["n"] for sv in rec.get("svars", []) if is_registry((sv.get("t") or {}).get("c") or "") and sv["n"] not in ("sandbox_list",)]
+            if shared:
+                # the per-object registry became a static member: every sandbox object of this type shares it, so what a sandbox accepts
+                # depends on the registrations and the lifecycle of OTHER sandbox objects (and a destroyed one leaves its keys behind)
+                for nm_ in shared:
+                    rep.violation("R-C14-fresh", "rlbox::rlbox_sandbox [static registry %s]" % nm_, "the registry '%s' is a static member shared by all sandbox objects of the type: it is neither per object nor emptied per lifecycle" % nm_, f["loc"], inst)
+            else:
+                rep.require(False, "anchor field callback_keys not found in rlbox_sandbox")
         for cont in conts:
             if any(cont in x for x in clears):
                 rep.ok("R-C14-fresh", site(f) + " [%s]" % cont, "emptied on destroy", inst)
